@@ -435,4 +435,35 @@ theorem validate_spec (v : List ℝ) (tol : ℝ) (h : v ≠ []) :
 
 theorem validate_nil (tol : ℝ) : validate ([] : List ℝ) tol = true := rfl
 
+/-! ### relative entropy -/
+/-- the terms `p_i log2 (p_i / q_i)` over the positions with `p_i > 0` -/
+noncomputable def klTerms (p q : List ℝ) : List ℝ :=
+  (List.zip p q).map fun ab => if 0 < ab.1 then ab.1 * Real.logb 2 (ab.1 / ab.2) else 0
+
+/-- `RelEntropy`: `+∞` (the early return, `none`) exactly when some `p_i > 0` meets `q_i = 0`; otherwise `Σ p_i log2 (p_i/q_i)` -/
+theorem relEntropyGo_spec (p q : List ℝ) (kl : ℝ) :
+    relEntropyGo p q kl =
+      if (∃ ab ∈ List.zip p q, 0 < ab.1 ∧ ab.2 = 0) then none else some (kl + (klTerms p q).sum) := by
+  induction p generalizing q kl with
+  | nil => simp [relEntropyGo, klTerms]
+  | cons a ps ih =>
+    cases q with
+    | nil => simp [relEntropyGo, klTerms]
+    | cons b qs =>
+      unfold relEntropyGo
+      simp only [r_lt, r_ofNat, Nat.cast_zero, r_eq, r_klAdd, decide_eq_true_eq, List.zip_cons_cons, List.mem_cons, exists_eq_or_imp]
+      by_cases ha : 0 < a
+      · by_cases hb : b = 0
+        · simp [ha, hb]
+        · simp only [ha, ↓reduceIte, hb, false_and, false_or, true_and, ih]
+          by_cases hex : ∃ ab ∈ List.zip ps qs, 0 < ab.1 ∧ ab.2 = 0
+          · simp [hex]
+          · simp only [hex, ↓reduceIte, klTerms, List.zip_cons_cons, List.map_cons, List.sum_cons, ha]
+            congr 1; ring
+      · simp only [ha, ↓reduceIte, false_and, false_or, ih]
+        by_cases hex : ∃ ab ∈ List.zip ps qs, 0 < ab.1 ∧ ab.2 = 0
+        · simp [hex]
+        · simp only [hex, ↓reduceIte, klTerms, List.zip_cons_cons, List.map_cons, List.sum_cons, ha]
+          congr 1; ring
+
 end EaselModel.Vec
